@@ -466,7 +466,7 @@ PROPS["C11"] = dict(
 PROPS["C14"] = dict(
     asan=True,
     lean_targets=["SJ.Props.C14", "SJ.Props.TypedDepth", "SJ.Audit.C14"],
-    configs=dict(quick=["d", "ud"], thorough=["d", "ud", "ap"]),
+    configs=dict(quick=["d", "ud", "rv"], thorough=["d", "ud", "ap", "rv"]),
     gen_keys=["de."],
     rule=PARSE_RULE + " C14 adds typed targets built from arrays, newtype-enum and struct-enum wrappers nested 1..140 deep in six "
          "mixes (accepted iff at most 127 containers are open), unbounded_depth runs with the limit disabled at depth 127..1000 "
